@@ -328,6 +328,18 @@ def run_surrogates(ctx):
             check_unevaluable(ctx, doc, toks, str(e), tag)
 
 
+def run_marker_siblings(ctx):
+    """Objects holding a member N next to members named '~N' and '#N' (the spellings of the non-standard key markers):
+    a pointer spelled from a node's names resolves to that very node whatever the names contain, so '/~0N' is the member
+    '~N' when there is one - the marker reading is only a fallback for names the object does not have."""
+    for name in ["x", "", "0", "1", "a/b", "~", "#", "é", "-", "k k", "00", "\\u0041", "%41", "~x", "#x"]:
+        doc = {name: "plain-%s" % name, "~" + name: {"deep": [0, {"leaf": "t"}], name: "inner"}, "#" + name: ["h", {name: 1, "~" + name: 2, "#" + name: 3}], "arr": [{name: "in-array", "~" + name: "tilde-in-array", "#" + name: "hash-in-array"}]}
+        for loc, val in nodes(doc):
+            if not check_existing(ctx, doc, loc, val):
+                return
+        ctx.count("objects_with_marker_spelled_siblings")
+
+
 def run_scale(ctx):
     """Pointers far into long arrays and far down deep documents; indices on either side of the length."""
     for n in (9, 10, 11, 100, 1000, 16384, 65537):
@@ -361,6 +373,7 @@ def run(spec, ctx):
     if spec.get("kind") == "scale":
         run_scale(ctx)
         run_surrogates(ctx)
+        run_marker_siblings(ctx)
         return
     if spec.get("kind") == "flags":
         # pointer texts with %XX / \uXXXX sequences read under every decoding option, in several orders, in one process
